@@ -10,7 +10,7 @@ from sim.seams import Env
 
 PROPERTY = "C15"
 LEVEL = "exploration"
-SCENARIOS = {"tasks-plain": 2, "tasks-parallel": 2, "processes": 3}
+SCENARIOS = {"tasks-plain": 2, "tasks-parallel": 2, "processes": 3, "run-sessions": 2}
 TIERS = {"quick": {"runs": 4000, "chunk": 10}, "thorough": {"runs": 50000000, "wall_s": 600, "chunk": 50, "recheck": 16}}
 RULE = ("one run = 2-4 mailbox users of 1-2 simulated terminals, each doing 1-5 operations: "
         "expedited SDO reads/writes of its own object, segmented uploads/downloads of a long "
@@ -25,6 +25,9 @@ RULE = ("one run = 2-4 mailbox users of 1-2 simulated terminals, each doing 1-5 
         "ParallelEtherCat, socket and ethertype, opening the shared LockFile as run() does, "
         "pre-empted before every open/write/pread/pwrite/close/lockf and every loop "
         "iteration, including between the creator's O_EXCL create and its first write; "
+        "'run-sessions': 2-3 processes come and go through the real ParallelEtherCat.run() "
+        "(lock directory, dispatcher, lock files created by the first and removed by the "
+        "last) and take the mailbox locks of two terminals while inside, judged at the lock; "
         "oracle at the terminal (mailbox writes/reads in order, counter fields) and on the "
         "participants' outcomes; distinct = distinct schedules (sequence of process switches "
         "+ mailbox event order); non-trivial = at least two users had exchanges overlapping "
@@ -42,7 +45,170 @@ ASSUMPTIONS = ["tasks of one process share one Terminal object (and thus one loc
                "POSIX record-lock semantics: owned by the process, no exclusion inside it"]
 
 
+LOCKDIR = "/run/lock/ebpf.sim0.lock"
+LOCKFILE = "/run/ebpf/sim0"
+PIN = "/sys/fs/bpf/sim0/programs"
+
+
+def run_sessions(tape):
+    """the mailbox lock as processes really get it: 2-3 simulated processes come and go
+    through the real ParallelEtherCat.run() (lock directory, dispatcher, pinned table, lock
+    files created by the first and removed by the last one) and, while inside, their tasks
+    take the ParallelMailboxLock of one of two terminals, draw the next counter and hold
+    the lock for a while. Judged at the lock: holders of one terminal's lock never overlap,
+    and the counters drawn for a terminal are successors in 1..7 (0 only first) as long as
+    the lock file lives. No bus traffic: what is judged is exclusion and counting"""
+    from ebpfcat.ebpfcat import ParallelEtherCat
+
+    env = Env(tape, with_kernel=True, with_fs=True, faults=WireFaults(delay_buckets=(50e-6,)))
+    world, fs = env.world, env.fs
+    sched = env.use_scheduler(preempt_bound=tape.draw("sched/bound", 7),
+                              preempt_den=[3, 6, 12][tape.draw("sched/den", 3)])
+    sched.stall_rate = [0, 20, 50][tape.draw("cfg/stall-rate", 3)]
+    sched.stall_anywhere = tape.pick("cfg/stall-anywhere", [0, 0, 10, 30])
+    if tape.chance("cfg/long-stalls", 35):
+        sched.stall_times = (1e-3, 30e-3, 150e-3, 400e-3)
+    nproc = 2 + tape.draw("c15/nprocs", 2)
+    violations = []
+    holder = {}          # terminal number -> (participant, task) inside its lock
+    drawn = {}           # terminal number -> [(generation, counter, participant)]
+    generation = [0]
+    seen_ops = [0]
+    outcomes = {}
+    overlap = [0]
+    exchanges = [0]
+
+    def viol(rule, detail, **params):
+        if not violations:
+            violations.append({"rule": rule, "params": params, "detail": detail})
+
+    def teardown_race():
+        """did somebody become installer between another one's successful rmdir of the
+        lock directory and that one's removal of the mailbox lock file? (the open finding
+        C23-detach-after-reinstall: the last leaver cleans up after the directory is free)"""
+        pending = {}
+        for pid, op, *args in fs.oplog:
+            if op == "rmdir" and args[0] == LOCKDIR:
+                pending[pid] = True
+            elif op == "remove" and args[0] == LOCKFILE and pid in pending:
+                del pending[pid]
+            elif op == "rename" and args[1:] == [LOCKDIR] and any(q != pid for q in pending):
+                return True
+        return False
+
+    def note_generation():
+        for pid, op, *args in fs.oplog[seen_ops[0]:]:
+            if op == "remove" and args[0] == LOCKFILE:
+                generation[0] += 1
+        seen_ops[0] = len(fs.oplog)
+
+    def participant(u):
+        rounds = 1 + tape.draw("c15/rounds", 3)
+        start = [0, 0, 1e-3, 20e-3, 60e-3][tape.draw("c15/start", 5)]
+
+        async def exchanges_of(ec, locks, who, n):
+            for _ in range(n):
+                no = ec.terminal_addr_range[0] + 5 + tape.draw("c15/terminal", 2)
+                lock = locks.setdefault(no, ec.get_mbx_lock(no))
+                await asyncio.sleep([0, 0, 40e-6, 300e-6][tape.draw("c15/pause", 4)])
+                async with lock:
+                    note_generation()
+                    c = lock.next_counter()
+                    if holder.get(no) is not None:
+                        viol("exchanges-interleaved",
+                             f"terminal {no}: {who} got the mailbox lock while {holder[no]} "
+                             f"holds it (last fs ops {fs.oplog[-6:]})",
+                             scenario="run-sessions", teardown_race=teardown_race())
+                    holder[no] = who
+                    drawn.setdefault(no, []).append((generation[0], c, who))
+                    exchanges[0] += 1
+                    await asyncio.sleep([0, 30e-6, 200e-6, 2e-3][tape.draw("c15/hold", 4)])
+                    if holder.get(no) == who:
+                        holder[no] = None
+
+        async def main(loop):
+            await asyncio.sleep(start)
+            for r in range(rounds):
+                stay = [1e-3, 5e-3, 30e-3][tape.draw("c15/stay", 3)]
+                ntasks = 1 + tape.draw("c15/ntasks", 2)
+                nops = [1 + tape.draw("c15/nops", 4) for _ in range(ntasks)]
+                for attempt in range(4):
+                    ec = ParallelEtherCat("sim0")
+                    ec.ethertype = 0x3000 + 16 * u + attempt
+                    try:
+                        async with ec.run():
+                            locks = {}
+                            await asyncio.gather(*[
+                                exchanges_of(ec, locks, (u, r, k), nops[k])
+                                for k in range(ntasks)])
+                            await asyncio.sleep(stay)
+                        outcomes[(u, r)] = "ok"
+                        break
+                    except FileNotFoundError as e:
+                        # cannot join: the installer has not pinned the table yet, or the
+                        # last one is just leaving - an availability matter; try again
+                        world.count("c15/join-retried")
+                        outcomes[(u, r)] = f"FileNotFoundError: {e}"
+                        await asyncio.sleep(0.03)
+                    except Exception as e:
+                        outcomes[(u, r)] = f"{type(e).__name__}: {e}"
+                        break
+                await asyncio.sleep([0, 1e-3, 15e-3][tape.draw("c15/gap", 3)])
+        return main
+
+    procs = {}
+    aborted = None
+    with env:
+        try:
+            for u in range(nproc):
+                procs[u] = sched.spawn(f"part{u}", participant(u))
+            aborted = sched.run()
+        except SimStall as e:
+            viol("did-not-finish", str(e), scenario="run-sessions")
+        for m, tn, txt in env.loop_exceptions():
+            if tn != "CancelledError":
+                viol("library-task-died", f"{m}: {tn}: {txt}", exception=tn,
+                     scenario="run-sessions")
+    if aborted:
+        viol("did-not-finish", aborted, scenario="run-sessions")
+    race = teardown_race()
+    for no, seq in sorted(drawn.items()):
+        for i, (gen, c, who) in enumerate(seq):
+            if i == 0 or seq[i - 1][0] != gen:
+                ok = 0 <= c <= 7          # a new lock file starts counting anew
+            else:
+                ok = c == seq[i - 1][1] % 7 + 1
+            if not ok:
+                viol("counter-sequence",
+                     f"terminal {no}: counters drawn (lock-file generation, counter, who) "
+                     f"{seq[max(0, i - 4):i + 2]}: position {i} is not the successor in 1..7",
+                     scenario="run-sessions", teardown_race=race)
+                break
+    for p in procs.values():
+        if p.exc is not None and type(p.exc).__name__ not in ("SimKilled",):
+            viol("participant-failed", f"{p.name}: {type(p.exc).__name__}: {p.exc}",
+                 scenario="run-sessions", exception=type(p.exc).__name__)
+    for (u, r), v in sorted(outcomes.items()):
+        if v != "ok" and not v.startswith("FileNotFoundError"):
+            viol("participant-failed", f"participant {u} round {r}: {v}",
+                 scenario="run-sessions", exception=v.split(":")[0], teardown_race=race)
+    trace = tuple(sched.trace)
+    world.count("c15/lock-level-exchanges", exchanges[0])
+    return {
+        "violations": violations, "stats": dict(world.counters),
+        "digest": world.digest.hexdigest(), "sim_time": world.now,
+        "schedule": repr(trace), "nontrivial": exchanges[0] >= 4 and len(trace) > 4,
+        "sample": {"scenario": "run-sessions", "participants": nproc,
+                   "outcomes": {f"{u}.{r}": v for (u, r), v in outcomes.items()},
+                   "counters": {str(no): [(g, c) for g, c, w in seq][:16]
+                                for no, seq in drawn.items()},
+                   "process_switches": len(trace)},
+    }
+
+
 def run(tape, scenario):
+    if scenario == "run-sessions":
+        return run_sessions(tape)
     from ebpfcat.ebpfcat import ParallelEtherCat
     from ebpfcat.ethercat import EtherCat
     from ebpfcat.lock import LockFile
